@@ -796,6 +796,7 @@ func (tk *tokenizer) consumeValueList(endChar byte) []Token {
 				index := bytes.Index(tk.src[tk.pos+2:], []byte("*/"))
 				tk.pos += 2 + index
 				if index == -1 {
+					tk.pos = len(tk.src) // unterminated comment: consume up to the end of input
 					if !tk.skipComments {
 						out = append(out, Comment{stringVal{pos: tokenPos, Value: string(tk.src[tk.previousPos+2:])}})
 					}
